@@ -5,9 +5,9 @@ import itertools
 from vf import symex, e3
 from vf.symex import And, Or, Not, Ite, Implies
 from vf.common import Check, assert_repo_import, tier, seed, parmap
-from vf import gen, e1run
+from vf import gen, e1run, hooks
 
-KINDS = ("under_constrained", "over_constrained", "returned_values_violate", "spurious_failure", "missed_failure", "other_exception", "nonrandom_changed")
+KINDS = ("under_constrained", "over_constrained", "returned_values_violate", "spurious_failure", "missed_failure", "other_exception", "nonrandom_changed", "dist_weights")
 WMAX = 1 << 40
 
 
@@ -112,7 +112,9 @@ def main():
                 explanation="decided parts of the dist / weighted-selection property. (a) E1 translation validation: for programs with dist (values, "
                             "ranges, zero weights, overlapping zero-weight entries, weights from non-random fields, accompanying constraints, inline, on "
                             "list elements) z3 proves for all random-field values that the asserted formula is equivalent to: field in the union of "
-                            "non-zero-weight entries /\\ other constraints - zero-weight and unlisted values can never be produced. (b) E3 symbolic "
+                            "non-zero-weight entries /\\ other constraints - zero-weight and unlisted values can never be produced; and the (weight, index) "
+                            "selection list the real DistConstraintBuilder installs for each call equals the non-zero weights evaluated on the "
+                            "current non-random field values (weights may be expressions and change between calls). (b) E3 symbolic "
                             "execution of the real distselect / randselect / ConstraintDistScopeModel.next_target_range with symbolic weights "
                             "(<= 2^40 each) and the RNG draw stubbed by symbolic values within randint's contract: the selected entry never has weight "
                             "0 and any two draws selecting the same entry are less than w_i apart, hence entry i is selected for exactly w_i of the "
@@ -133,7 +135,14 @@ def main():
     chk.bound("(a) 7 weight lists x 6 accompanying constraint sets x 3 assignments of the weight fields x 2 call kinds; (b) 2..%d symbolic weights "
               "in [0, 2^40], two symbolic draws; (c) widths {1,2,7,8,9,16,32,33,63,64} x signedness" % nmax)
     chk.extra["rule"] = "one evaluation = one call decided / one selection harness explored over all paths / one kernel configuration"
-    e1run.run_specs(chk, gen.c15_programs(t, seed()), KINDS)
+    nl = [0]
+
+    def xh(spec, r):
+        nl[0] += sum(c.get("dist_lists_checked", 0) for c in r["calls"])
+    e1run.run_specs(chk, gen.c15_programs(t, seed()), KINDS, opts={"hooks": [hooks.dist_hook]}, extra_handler=xh)
+    chk.extra["dist_selection_lists_compared"] = nl[0]
+    if nl[0] == 0:
+        chk.harness_error("no dist selection list was compared (dist hook vacuous)")
     items = [dict(kind=k, n=n) for k in ("distselect", "randselect", "next_target_range") for n in range(2, nmax + 1)]
     items.sort(key=lambda it: -it["n"])
     e3.run_e3(chk, items, build, replay_module="checks.c15", chunk=1)
